@@ -318,9 +318,13 @@ def run_history(args):
                 n += 1
                 cmd = "go"
                 if n == k:
-                    cmd = {"before": "die", "after": "go-die", "mid": "mid"}[mode]
+                    cmd = {"before": "die", "after": "go-die", "mid": "mid", "fail": "fail", "mid-fail": "mid-fail"}[mode]
                     if cmd == "mid" and w.children[1].at != "write":
                         cmd = "die"
+                    if cmd in ("fail", "mid-fail") and w.children[1].at not in WRITING:
+                        cmd = "go"        # only the calls that write the module are made to fail
+                    if cmd == "mid-fail" and w.children[1].at != "write":
+                        cmd = "fail"
                 add(w.step(1, cmd))
             # a later construction must succeed and render the current source
             add(w.begin(2))
@@ -345,9 +349,13 @@ def run_history(args):
                 p = rng.choice(w.active())
                 cmd = "go"
                 if rng.random() < crash_prob:
-                    cmd = rng.choice(["die", "go-die", "mid"])
+                    cmd = rng.choice(["die", "go-die", "mid", "fail", "mid-fail"])
                     if cmd == "mid" and w.children[p].at != "write":
                         cmd = "die"
+                    if cmd in ("fail", "mid-fail") and w.children[p].at not in WRITING:
+                        cmd = "die"
+                    if cmd == "mid-fail" and w.children[p].at != "write":
+                        cmd = "fail"
                 add(w.step(p, cmd))
         # run every construction still active to completion, then one more that must succeed
         while w.active():
@@ -360,6 +368,7 @@ def run_history(args):
         w.close()
 
 
+WRITING = ("mkstemp", "write", "close", "move")     # the calls that may be made to FAIL (OSError)
 ENV_OPS = ["modify-now", "modify-prev", "modify-0", "tick", "delmod", "oldgen-older", "oldgen-newer"]
 
 
@@ -425,11 +434,24 @@ def replay_behaviour(args):
                 p = a[0]
                 c = w.children.get(p)
                 if c is None:
-                    if _get(prev["pc"], p) != "Done":
+                    if _get(prev["pc"], p) not in ("Done", "Failed"):     # the real process has already finished / raised
                         mm = "crash: process %s not running" % p
                 else:
                     mid = _get(prev["pc"], p) == "Write" and _get(st["tmp"], p)["bytes"] == 1
                     w.step(p, "mid" if mid else "die")
+            elif act == "Fail":
+                p = a[0]
+                c = w.children.get(p)
+                want = ACT_POINT[_get(prev["pc"], p)]
+                if c is None or c.at != want:
+                    mm = "process %s is at %r, spec expects a failing %s" % (p, c.at if c else None, want)
+                else:
+                    evs = w.step(p, "mid-fail" if last.get("mid") else "fail")
+                    fin = [x for x in evs if x["ev"] in ("done", "exc")]
+                    if not fin or fin[0]["ev"] != "exc":
+                        mm = "after a failing %s the constructor did not raise: %s" % (want, evs)
+            elif act == "Raise":
+                pass   # the exception was consumed together with the failing call
             elif act == "Done":
                 pass   # the final event was consumed together with the last granted call
             elif act == "CheckDir" and st.get("dir") is True and w.children.get(a[0]) is not None \
@@ -499,7 +521,7 @@ def check(run):
             run.spec_violation(res)
         for a, (d, g) in res.coverage.items():
             acts[a] = acts.get(a, 0) + g
-    for a in ("Modify", "Tick", "DeleteMod", "OtherGen", "Begin", "CheckDir", "MkDir", "StatMod", "ReadSrcFrom", "Mkstemp", "Write", "Close", "MoveFrom", "CallWriter", "LoadFrom", "Done", "Crash"):
+    for a in ("Modify", "Tick", "DeleteMod", "OtherGen", "Begin", "CheckDir", "MkDir", "StatMod", "ReadSrcFrom", "Mkstemp", "Write", "Close", "MoveFrom", "CallWriter", "LoadFrom", "Done", "Crash", "Fail", "Raise"):
         if not acts.get(a):
             raise MachineryError("vacuous model checking: action %s never taken (%s)" % (a, acts))
     run.extra["action_coverage"] = acts
@@ -509,7 +531,7 @@ def check(run):
     # exhaustive crash points of the single-writer protocol (first construction: 8 calls; k beyond the end = no crash)
     for uw in (False, True):
         for k in range(1, 14):
-            for mode in ("before", "after", "mid"):
+            for mode in ("before", "after", "mid") + (("fail", "mid-fail") if not uw else ()):
                 jobs.append(("plan", 2, uw, (0, 0, 2, uw, 0.0, run.scratch, (k, mode))))
     # one long-lived process, every sequence of <= 2 history steps between its constructions (and a third construction)
     gaps = [(a,) for a in ENV_OPS] + [(a, b) for a in ENV_OPS for b in ENV_OPS]
@@ -533,12 +555,18 @@ def check(run):
     results = list(pool.map(run_history, [j[3] for j in jobs]))
     groups = {}
     crash_points = set()
+    fail_points = set()
     for tid, ((kind, maxp, uw, _), evs) in enumerate(zip(jobs, results)):
         np_ = max([maxp, 2] + [e.get("p", 0) for e in evs])
         groups.setdefault((np_, uw), []).append({"id": tid + 1, "events": evs, "kind": kind})
         for e in evs:
             if e["ev"] == "crash":
                 crash_points.add((e.get("at"), e.get("mid")))
+            if e["ev"] == "fail":
+                fail_points.add((e.get("at"), e.get("mid")))
+    run.extra["distinct_failure_points"] = sorted("%s%s" % (a, ":mid" if m else "") for a, m in fail_points)
+    if len(fail_points) < 5:
+        raise MachineryError("failure injection did not reach every writing call: %s" % sorted(fail_points))
     run.extra["distinct_crash_points"] = sorted("%s%s" % (a, ":mid" if m else "") for a, m in crash_points)
     first = True
     for (np_, uw), traces in sorted(groups.items()):
